@@ -144,6 +144,27 @@ pub fn wsupgrade_vs_cascade(ctl: &mut Ctl, res: usize) {
     done(ctl);
 }
 
+/// Mutant `NoUpgradeToken`: WeakSnapshot::upgrade on a zero count whose try_destruct becomes ripe
+/// inside the upgrading critical section (pin exactly `k` epochs after the last drop).
+pub fn upgrade_token_window(ctl: &mut Ctl, res: usize, k: usize) {
+    ctl.advance_to_residue(res);
+    ctl.reset(&format!("dir:upgrade_token_window:{}:{}", res, k));
+    crate::rcrun::build_template(ctl, 2); // X: t1 Rc slot0, t0 Weak slot0
+    ctl.run(1, Op::Drop { slot: 0 }); // X: 1 -> 0, try_destruct sealed now
+    adv(ctl, k);
+    ctl.run(0, Op::Pin);
+    ctl.run(0, Op::WSnap { src: 0, dst: 0 });
+    ctl.run(0, Op::WSUpgrade { ws: 0, dst: 0 }); // Snapshot(X) while the count is zero
+    adv(ctl, 2); // at most one of these can succeed while t0 is pinned
+    ctl.run(1, Op::Collect);
+    ctl.run(0, Op::Load { loc: Loc::Cell(0), dst: 1 }); // still inside the critical section
+    adv(ctl, 2);
+    ctl.run(1, Op::Collect);
+    ctl.run(0, Op::Counted { sn: 0, dst: 0 });
+    ctl.run(0, Op::Unpin);
+    done(ctl);
+}
+
 /// Token protocol: last drop, then upgrade/clone-from-snapshot from zero, then the pending
 /// try_destruct; the object must survive until the new owner releases it.
 pub fn token_protocol(ctl: &mut Ctl, res: usize, via_snapshot: bool) {
@@ -291,6 +312,12 @@ pub fn run_family(ctl: &mut Ctl, fam: &str) -> usize {
             stale_stamp(ctl, res);
             wsupgrade_vs_cascade(ctl, res);
             n += 2;
+        }
+        if all || fam == "c02" || fam == "c05" || fam == "c01" {
+            for k in 0..4 {
+                upgrade_token_window(ctl, res, k);
+                n += 1;
+            }
         }
         if all || fam == "c01" || fam == "c05" {
             inc_from_zero(ctl, res, site::U_INC_FAA1);
